@@ -123,6 +123,20 @@ func heldValue(rv reflect.Value) reflect.Value {
 	return held
 }
 
+// holdArgs applies heldValue to the arguments of a call that runs later (defer, go).
+func holdArgs(args []reflect.Value, isRunVMFunction bool) {
+	for i, arg := range args {
+		if !isRunVMFunction {
+			args[i] = heldValue(arg)
+			continue
+		}
+		// the arguments of a VM function are reflect.Values holding the reflect.Value
+		if inner, ok := arg.Interface().(reflect.Value); ok && inner.IsValid() && inner.CanAddr() {
+			args[i] = reflect.ValueOf(heldValue(inner))
+		}
+	}
+}
+
 // recoverFunc generic recover function
 func recoverFunc(runInfo *runInfoStruct) {
 	recoverInterface := recover()
